@@ -343,6 +343,24 @@ pub fn cloud_server(
     Ok(Box::new(CloudServer::with_cryptor(service, cryptor)))
 }
 
+/// An object-store server created the way `ServerConfig` creates one: `CloudServer::new` reads
+/// the salt from the store, or creates it, through the gated service, and derives its own key.
+pub async fn cloud_server_new(
+    store: SharedStore,
+    gate: Box<dyn Gate>,
+    client: usize,
+    page_size: usize,
+    secret: &[u8],
+) -> Result<Box<dyn Server>> {
+    let service = MemService::new(store, gate, client, page_size);
+    Ok(Box::new(CloudServer::new(service, secret.to_vec()).await?))
+}
+
+/// A new, entirely empty store (no salt yet).
+pub fn empty_store() -> SharedStore {
+    Arc::new(Mutex::new(MemStore::default()))
+}
+
 /// A new store containing only a salt object.
 pub fn init_store(salt: &[u8]) -> SharedStore {
     let mut s = MemStore::default();
